@@ -276,6 +276,9 @@ def run(ctx) -> None:
              "truncation of them - with a tolerance finer than the resolution of the fallback weights, oriented so that a nan sum is replaced")
     ctx.rule("C20.R9-malformed-weight-is-missing", "the conversion float(<given weight>) is enclosed by handlers for ValueError and TypeError: a weight "
              "that is not a number is treated as missing instead of aborting the load")
+    ctx.rule("C20.R11-stage-identifiers-normalised", "the status monitor accepts N, 'N' and 'stageN' as keys of the status report (it maps them through "
+             "stage_identifier_to_stage_index); the loader, which looks the weights up by integer index, maps the keys through the same "
+             "function first - otherwise weights given under 'stage0' are ignored and fallback entries are added next to them")
     ctx.rule("C20.R10-weights-in-stage-order", "the list the status monitor indexes by stage index is filled by a loop that runs in stage order "
              "(sorted(...) / range(...)), not in the order the status report happens to list its stages")
     ctx.rule("C20.R5-given-weights-kept", "the given weights are replaced only under the sum test or the sign test")
@@ -394,6 +397,23 @@ def run(ctx) -> None:
            "the scale constants disagree or a role is missing: %s" % {k: sorted({v for _, v in lst}) for k, lst in scales.items()},
            construct="scale constant agreement in inject_default_values")
 
+    # R11: sibling agreement on what identifies a stage
+    monitor_maps = any(isinstance(c_, ast.Call) and last_attr(c_) == "stage_identifier_to_stage_index" or (
+        isinstance(c_, ast.Attribute) and c_.attr == "stage_identifier_to_stage_index")
+        for q_, f_ in out.functions.items() if q_.startswith("StatusMonitor.") for c_ in ast.walk(f_))
+    loader_maps = [c_ for c_ in source.calls_in(idv, include_nested=False) if last_attr(c_) == "stage_identifier_to_stage_index"]
+    int_lookups = [n_ for n_ in source.walk_own(idv) if isinstance(n_, ast.Compare) and isinstance(n_.ops[0], (ast.In, ast.NotIn))
+                   and "FieldStatusReport" in source.src(n_.comparators[0]) and isinstance(n_.left, ast.Name)]
+    ok11 = (not monitor_maps) or bool(loader_maps)
+    if ok11 and loader_maps and int_lookups:
+        # the normalisation precedes the integer lookups
+        ok11 = min(c_.lineno for c_ in loader_maps) < min(n_.lineno for n_ in int_lookups)
+    ctx.ob("C20.R11-stage-identifiers-normalised", loader_maps[0] if loader_maps else idv, ok11,
+           "the keys of the status report are mapped to stage indices before the weights are looked up by index" if ok11 else
+           "inject_default_values looks the weights up by integer index without mapping the keys of the status report through "
+           "stage_identifier_to_stage_index, which the status monitor does: weights given as {'stage0': 0.3, 'stage1': 0.7} are ignored, "
+           "integer-keyed fallback entries are added next to them (four weights that sum to two) and the monitor fails on the string keys",
+           construct="inject_default_values: status-report keys -> stage indices before the lookup")
     S = sorted(vals)[0] if len(vals) == 1 else 1000
     check_sum_test(ctx, idv, "FlowIR.inject_default_values", sum_tests, wl, base_lists(idv), 1.0 / S)
     check_conversion(ctx, idv, "FlowIR.inject_default_values")
